@@ -1,5 +1,7 @@
 import Fuota.Lemmas.V1Ring
 import Fuota.Lemmas.V1Write
+import Fuota.Lemmas.V1Start
+import Fuota.Lemmas.V1App
 /-!
 # C20 — deprecated manager: ring placement is oldest-first and writes stay in-slot
 
@@ -11,9 +13,14 @@ All theorems quantify over `3 ≤ N ≤ 6`, every rotation `p < N`, every fill `
 
 * `next_seq_never_reserved`, `next_seq_valid`, `next_seq_injective`
 * `ordered_headers_spec`, `no_assert`
-* `start_places_partial` — both iterations of `start`: the two positions that follow the newest slot (slots 0 and 1 on a
+* `start_places` — FULL, flash level: on every consistent ring device `start` takes the two positions after the newest,
+  writes the two headers numbered `next_seq`, `next_seq²` and touches nothing else.
+* `start_places_partial` — the decision-level core of it: both iterations of `start`: the two positions that follow the newest slot (slots 0 and 1 on a
   blank ring), numbered `next_seq`, `next_seq²`.
-* `app_pair_spec`, `app_status_resumes_partial` — the pair `app_boot_status` resumes is the newest (firmware, parity) pair
+* `app_status_resumes` — FULL, flash level: on every consistent ring device `app_boot_status` resumes exactly the newest
+  in-progress pair or reports idle, and afterwards no other slot reads "in progress" (`cancelAll_run`,
+  `appAfter_some_run` are the two branches).
+* `app_pair_spec`, `app_status_resumes_partial` (its decision-level core) — the pair `app_boot_status` resumes is the newest (firmware, parity) pair
   iff both are in progress, of the right kinds, of the same fragment size and the firmware geometry fits the slot; `remediate_covers`, `cancel_covers`: every other slot
   that reads "in progress" is aborted or erased (resume case), every slot that reads "in progress" is aborted
   (idle case).
@@ -28,9 +35,9 @@ All theorems quantify over `3 ≤ N ≤ 6`, every rotation `p < N`, every fill `
   it"; an implausible firmware header makes the pair not resumable instead of being returned as an error
   (`app_status_error_witness` shows the difference to the pinned logic on the state a power loss inside `start` leaves).
 
-Not covered by a theorem (tied by suite D8 instead): that the erase + 28-byte header program of `start` turn the
-slot's parsed header into the header written (codec round trip, C11), and the effect of the abort / erase
-operations of `app_boot_status` on the parsed headers.
+The flash-level hypotheses of the former `_partial` statements are discharged in `Lemmas/V1Start.lean`
+(`startOne_run`: erase + header program = `putHeader`, by C11's `encode_parse` on the erased slot) and
+`Lemmas/V1App.lean` (`notInProg_abort`, `rem_step`, `runRem_run`: an aborted / erased slot does not read in progress).
 -/
 set_option linter.unusedSimpArgs false
 namespace Fuota.C20
@@ -146,6 +153,122 @@ theorem start_places_partial (N p k s0 : Nat) (H : Nat → Header) (h1 : Header)
     split
     · decide
     · omega
+
+/-- what an accepted geometry guarantees -/
+theorem reasonable_ok_facts {S sz n : Nat} (h : reasonablySized S sz n = .ok ()) :
+    1 ≤ sz ∧ sz ≤ 256 ∧ 1 ≤ n ∧ n ≤ 16384 ∧ 17408 < S := by
+  unfold reasonablySized maxDataSize at h
+  simp only [show Orig.MAX_SEGMENT_SIZE = 256 from rfl, show Orig.MAX_SEGMENTS = 16384 from rfl,
+    show Orig.HEADER_SIZE = 1024 from rfl] at h
+  by_cases h1 : sz = 0 ∨ sz > 256
+  · simp [h1] at h
+  · simp only [h1, ↓reduceIte] at h
+    by_cases h2 : n = 0 ∨ n > 16384
+    · simp [h2] at h
+    · simp only [h2, ↓reduceIte] at h
+      by_cases h3 : S - 1024 - 16384 ≥ 2 ^ 32
+      · simp [h3] at h
+      · simp only [h3, ↓reduceIte] at h
+        by_cases h4 : sz * n ≥ 2 ^ 32
+        · simp [h4] at h
+        · simp only [h4, ↓reduceIte] at h
+          by_cases h5 : sz * n > S - 1024 - 16384
+          · simp [h5] at h
+          · have : 1 ≤ sz * n := Nat.mul_pos (by omega) (by omega)
+            omega
+
+theorem firstSlot_lt (N p k : Nat) (hN : 0 < N) : firstSlot N p k < N := by
+  unfold firstSlot
+  split
+  · exact hN
+  · exact Nat.mod_lt _ hN
+
+theorem firstSeq_lt (k s0 : Nat) : firstSeq k s0 < 4294967295 := by
+  unfold firstSeq
+  split <;> omega
+
+theorem newHdr_wf (kind : Kind) (q sz n : Nat) (hq : q < 4294967295) (h1 : 1 ≤ sz) (h2 : sz ≤ 256) (h3 : 1 ≤ n)
+    (h4 : n ≤ 16384) : Header.WF Codec.pinned (newHdr kind q sz n) := by
+  unfold Header.WF newHdr
+  have e1 : Codec.pinned.seqInvalid = 4294967295 := rfl
+  have e2 : Codec.pinned.maxSegmentSize = 256 := rfl
+  have e3 : Codec.pinned.maxSegments = 16384 := rfl
+  simp only [e1, e2, e3]
+  omega
+
+theorem succ_mod_ne (N a : Nat) (hN : 3 ≤ N) (ha : a < N) : (a + 1) % N ≠ a ∧ (a + 1) % N < N := by
+  refine ⟨?_, Nat.mod_lt _ (by omega)⟩
+  by_cases h : a + 1 < N
+  · rw [Nat.mod_eq_of_lt h]; omega
+  · have : a + 1 = N := by omega
+    rw [this, Nat.mod_self]; omega
+
+/-- **start_places** (flash level, full).  For every consistent ring state on a device without armed injection —
+    `N = 3..6` slots of size `S` (a multiple of the erase-block size) inside the device, every byte a byte, the parsed
+    headers of the slots being `ringIH N p k s0 H` for any rotation `p`, fill `k`, start value `s0` and other fields
+    `H` — and every geometry `is_reasonably_sized` accepts, `start` succeeds and
+
+    * takes the two ring positions that follow the newest slot (slots 0 and 1 on a blank ring),
+    * leaves there an in-progress firmware header numbered `next_seq(newest)` and an in-progress parity header
+      (16384 fragments) numbered `next_seq²(newest)` (0 and 1 on a blank ring), neither being the reserved value,
+    * changes no byte outside these two slots (so every other slot's header reads as before). -/
+theorem start_places (N S p k s0 : Nat) (H : Nat → Header) (segsz nseg : Nat) (d : Dev)
+    (hN : 3 ≤ N) (hN6 : N ≤ 6) (hp : p < N) (hk : k ≤ N)
+    (hG : Good d) (hwf : FlashAdapters.WF d.flash) (hb0 : 0 < d.flash.block) (hdiv : S % d.flash.block = 0)
+    (hsz : N * S ≤ d.flash.size)
+    (hring : hdrsOf d.flash S (List.range N) = ringIH N p k s0 H)
+    (hgeo : reasonablySized S segsz nseg = .ok ()) :
+    ∃ act d', (Orig.start N S segsz nseg).run d = (.ok act, d') ∧ Good d' ∧
+      act.fwIdx = firstSlot N p k ∧ act.parIdx = (firstSlot N p k + 1) % N ∧ act.fwIdx ≠ act.parIdx ∧
+      hdrAtFlash d'.flash S act.fwIdx = some (newHdr .firmware (firstSeq k s0) segsz nseg) ∧
+      hdrAtFlash d'.flash S act.parIdx = some (newHdr .parity (nextSeq (firstSeq k s0)) segsz 16384) ∧
+      firstSeq k s0 ≠ 0xFFFFFFFF ∧ nextSeq (firstSeq k s0) ≠ 0xFFFFFFFF ∧
+      (∀ i, i ≠ act.fwIdx → i ≠ act.parIdx → hdrAtFlash d'.flash S i = hdrAtFlash d.flash S i) ∧
+      (∀ x, (x < act.fwIdx * S ∨ act.fwIdx * S + S ≤ x) → (x < act.parIdx * S ∨ act.parIdx * S + S ≤ x) →
+        d'.flash.byte x = d.flash.byte x) := by
+  obtain ⟨z1, z2, n1, n2, hS⟩ := reasonable_ok_facts hgeo
+  have hfs : firstSlot N p k < N := firstSlot_lt N p k (by omega)
+  have hfq := firstSeq_lt k s0
+  obtain ⟨hne, hps⟩ := succ_mod_ne N (firstSlot N p k) hN hfs
+  have hplan1 := plan_first N p k s0 H hN hN6 hp hk
+  rw [← hring] at hplan1
+  cases ho : orderHeaders (hdrsOf d.flash S (List.range N)) with
+  | none => rw [ho] at hplan1; cases hplan1
+  | some o =>
+    rw [ho] at hplan1
+    have hplan : planOne o = some (firstSlot N p k, firstSeq k s0) := hplan1
+    obtain ⟨d1, hrun1, hk1, hh1, hfr1, hat1, hoth1⟩ := startOne_run N S .firmware segsz nseg d hG hwf hb0 hdiv
+      (by omega) hsz o _ _ ho hplan hfs (newHdr_wf _ _ _ _ hfq z1 z2 n1 n2)
+    -- second iteration, on the ring with the firmware header in place
+    rw [hring] at hh1
+    have hseq1 : (newHdr .firmware (firstSeq k s0) segsz nseg).seq = firstSeq k s0 := by simp only [newHdr]
+    obtain ⟨_, hplan2, _, _⟩ :=
+      start_places_partial N p k s0 H (newHdr .firmware (firstSeq k s0) segsz nseg) hN hN6 hp hk hseq1
+    rw [← hh1] at hplan2
+    cases ho2 : orderHeaders (hdrsOf d1.flash S (List.range N)) with
+    | none => rw [ho2] at hplan2; cases hplan2
+    | some o2 =>
+      rw [ho2] at hplan2
+      have hplan2' : planOne o2 = some ((firstSlot N p k + 1) % N, nextSeq (firstSeq k s0)) := hplan2
+      obtain ⟨d2, hrun2, hk2, hh2, hfr2, hat2, hoth2⟩ := startOne_run N S .parity segsz 16384 d1 hk1.good (hk1.wf hwf)
+        (by rw [hk1.block]; exact hb0) (by rw [hk1.block]; exact hdiv) (by omega) (by rw [hk1.size]; exact hsz)
+        o2 _ _ ho2 hplan2' hps (newHdr_wf _ _ _ _ (nextSeq_lt _) z1 z2 (by omega) (by omega))
+      refine ⟨{ slotSize := S, segSize := segsz, fwIdx := firstSlot N p k, totalFw := nseg, remFw := nseg,
+                parIdx := (firstSlot N p k + 1) % N, totalPar := Orig.MAX_SEGMENTS, remPar := Orig.MAX_SEGMENTS },
+        d2, ?_, hk2.good, rfl, rfl, fun e => hne e.symm, ?_, hat2,
+        by omega, nextSeq_ne_reserved _, ?_, ?_⟩
+      · have hrun2' : (startOne N S .parity segsz Orig.MAX_SEGMENTS).run d1 = (.ok ((firstSlot N p k + 1) % N), d2) :=
+          hrun2
+        unfold Orig.start
+        simp only [hgeo, run_bind, run_pure, hrun1, hrun2']
+      · show hdrAtFlash d2.flash S (firstSlot N p k) = _
+        rw [hoth2 _ (fun e => hne e.symm), hat1]
+      · intro i h1 h2
+        show hdrAtFlash d2.flash S i = hdrAtFlash d.flash S i
+        rw [hoth2 i h2, hoth1 i h1]
+      · intro x h1 h2
+        show d2.flash.byte x = d.flash.byte x
+        rw [hfr2 x h2, hfr1 x h1]
 
 /-! ## application status -/
 
@@ -388,6 +511,307 @@ theorem app_status_error_witness :
     (orderHeaders crashRing).map cancelActs = some [0, 1, 2] := by
   refine ⟨rfl, rfl, rfl⟩
 
+/-! ### `app_boot_status` on flash -/
+
+theorem hdrAtFlash_seq_ne (f : Flash) (S i : Nat) (h : Header) (hh : hdrAtFlash f S i = some h) :
+    h.seq ≠ 0xFFFFFFFF := by
+  unfold hdrAtFlash at hh
+  cases hp : parseHeader Orig.C (f.read (i * S) 28) with
+  | none => rw [hp] at hh; cases hh
+  | some pr =>
+    obtain ⟨h', rest⟩ := pr
+    rw [hp] at hh
+    simp only [Option.map_some, Option.some.injEq] at hh
+    subst hh
+    obtain ⟨w0, w1, w2, w3, w4, w5, w6, _, _, hs, _⟩ := (C11.parseHeader_eq_some _ _ _ _).1 hp
+    have := C11.parseSeq_some _ _ _ hs
+    have e : Orig.C.seqInvalid = 0xFFFFFFFF := rfl
+    rw [e] at this
+    omega
+
+theorem hdrAtFlash_n_le (f : Flash) (S i : Nat) (h : Header) (hh : hdrAtFlash f S i = some h) : h.n ≤ 16384 := by
+  unfold hdrAtFlash at hh
+  cases hp : parseHeader Orig.C (f.read (i * S) 28) with
+  | none => rw [hp] at hh; cases hh
+  | some pr =>
+    obtain ⟨h', rest⟩ := pr
+    rw [hp] at hh
+    simp only [Option.map_some, Option.some.injEq] at hh
+    subst hh
+    obtain ⟨w0, w1, w2, w3, w4, w5, w6, _, _, _, _, hn, _⟩ := (C11.parseHeader_eq_some _ _ _ _).1 hp
+    have := C11.parseNseg_some _ _ _ hn
+    have e : Orig.C.maxSegments = 16384 := rfl
+    rw [e] at this
+    omega
+
+theorem cancelActs_mem {hs : List IH} {i : Nat} (h : i ∈ cancelActs hs) : ∃ ih ∈ hs, ih.idx = i := by
+  unfold cancelActs at h
+  simp only [List.mem_filterMap] at h
+  obtain ⟨ih, hm, hv⟩ := h
+  refine ⟨ih, hm, ?_⟩
+  cases hh : ih.hdr with
+  | none => simp [hh] at hv
+  | some hd =>
+    simp only [hh] at hv
+    split at hv <;> simp at hv
+    exact hv
+
+theorem remediateActs_mem {fIdx pIdx : Nat} {hs : List IH} {a : Nat × Rem} (h : a ∈ remediateActs fIdx pIdx hs) :
+    ∃ ih ∈ hs, ih.idx = a.1 := by
+  unfold remediateActs at h
+  simp only [List.mem_filterMap] at h
+  obtain ⟨ih, hm, hv⟩ := h
+  refine ⟨ih, hm, ?_⟩
+  by_cases hc : ih.idx = fIdx ∨ ih.idx = pIdx
+  · simp [hc] at hv
+  · simp only [hc, ↓reduceIte] at hv
+    cases hh : ih.hdr with
+    | none => simp [hh] at hv
+    | some hd =>
+      simp only [hh] at hv
+      split at hv <;> simp at hv <;> rw [← hv]
+
+/-- the cancel loop on flash: afterwards no slot reads "in progress" -/
+theorem cancelAll_run (N S : Nat) (d0 d : Dev) (o : List IH) (hS : 28 ≤ S) (hG : Good d) (hwf : FlashAdapters.WF d.flash)
+    (hb0 : 0 < d.flash.block) (hdiv : S % d.flash.block = 0) (hsz : N * S ≤ d.flash.size)
+    (ho : orderHeaders (hdrsOf d0.flash S (List.range N)) = some o)
+    (hcov : ∀ i, i < N → NotInProg d.flash S i ∨ ∃ h, hdrAtFlash d0.flash S i = some h ∧ h.ext = Ext.inProgress) :
+    ∃ d', (cancelAll S o).run d = (.ok (), d') ∧ Fs.Keeps d d' ∧ ∀ i, i < N → NotInProg d'.flash S i := by
+  unfold cancelAll
+  rw [abortAll_eq]
+  have hidx : ∀ a ∈ (cancelActs o).map (fun i => (i, Rem.abort)), a.1 < N := by
+    intro a ha
+    simp only [List.mem_map] at ha
+    obtain ⟨i, hi, rfl⟩ := ha
+    obtain ⟨ih, hm, rfl⟩ := cancelActs_mem hi
+    obtain ⟨j, hj, rfl⟩ := (mem_hdrsOf _ _ _ _).1 ((mem_ordered ho ih).1 hm)
+    exact hj
+  obtain ⟨d', hrun, hk, hpres, hacts, _⟩ := runRem_run N S hS _ d hG hwf hb0 hdiv hsz hidx
+  refine ⟨d', hrun, hk, ?_⟩
+  intro i hi
+  rcases hcov i hi with h | ⟨h, hh, hext⟩
+  · exact hpres i h
+  · have hm : ({ idx := i, hdr := hdrAtFlash d0.flash S i } : IH) ∈ o :=
+      (mem_ordered ho _).2 ((mem_hdrsOf _ _ _ _).2 ⟨i, hi, rfl⟩)
+    have := cancel_covers o _ h hm hh hext
+    exact hacts (i, Rem.abort) (by simp only [List.mem_map]; exact ⟨i, this, rfl⟩)
+
+theorem hdr_of_mem (f : Flash) (S N : Nat) (o : List IH) (ho : orderHeaders (hdrsOf f S (List.range N)) = some o)
+    (ih : IH) (hm : ih ∈ o) : ih.idx < N ∧ ih.hdr = hdrAtFlash f S ih.idx := by
+  obtain ⟨j, hj, rfl⟩ := (mem_hdrsOf _ _ _ _).1 ((mem_ordered ho ih).1 hm)
+  exact ⟨hj, rfl⟩
+
+theorem notInProg_or (f : Flash) (S i : Nat) :
+    NotInProg f S i ∨ ∃ h, hdrAtFlash f S i = some h ∧ h.ext = Ext.inProgress := by
+  cases hh : hdrAtFlash f S i with
+  | none => left; intro h e; rw [hh] at e; cases e
+  | some h =>
+    cases he : h.ext with
+    | inProgress => right; exact ⟨h, rfl, he⟩
+    | aborted => left; intro h' e; rw [hh] at e; cases e; rw [he]; simp
+    | complete => left; intro h' e; rw [hh] at e; cases e; rw [he]; simp
+
+/-- the resume branch of `app_boot_status` on flash -/
+theorem appAfter_some_run (N S : Nat) (d : Dev) (o : List IH) (hS : 28 ≤ S) (hG : Good d) (hwf : FlashAdapters.WF d.flash)
+    (hb0 : 0 < d.flash.block) (hdiv : S % d.flash.block = 0) (hsz : N * S ≤ d.flash.size)
+    (ho : orderHeaders (hdrsOf d.flash S (List.range N)) = some o)
+    (fo po : IH) (f pp : Header) (hfo : fo ∈ o) (hpo : po ∈ o) (hfh : fo.hdr = some f) (hph : po.hdr = some pp)
+    (hfe : f.ext = Ext.inProgress) (hpe : pp.ext = Ext.inProgress) :
+    ∃ r d', (appAfter S o (some (fo, f, po, pp))).run d = (.ok r, d') ∧ Good d' ∧
+      (r = none → ∀ i, i < N → NotInProg d'.flash S i) ∧
+      (∀ act, r = some act → act.fwIdx = fo.idx ∧ act.parIdx = po.idx ∧ act.segSize = f.size ∧
+        act.totalFw = f.n ∧ act.totalPar = pp.n ∧
+        hdrAtFlash d'.flash S fo.idx = some f ∧ hdrAtFlash d'.flash S po.idx = some pp ∧
+        ∀ i, i < N → i ≠ fo.idx → i ≠ po.idx → NotInProg d'.flash S i) ∧
+      (17408 ≤ S → f.n ≤ 16384 → pp.n ≤ 16384 → LegalTable d.flash (fo.idx * S + 1024) f.n →
+        LegalTable d.flash (po.idx * S + 1024) pp.n → r ≠ none) := by
+  obtain ⟨hfoN, hfoh⟩ := hdr_of_mem _ S N o ho fo hfo
+  obtain ⟨hpoN, hpoh⟩ := hdr_of_mem _ S N o ho po hpo
+  rw [hfh] at hfoh
+  rw [hph] at hpoh
+  have hidx : ∀ a ∈ remediateActs fo.idx po.idx o, a.1 < N := by
+    intro a ha
+    obtain ⟨ih, hm, e⟩ := remediateActs_mem ha
+    rw [← e]; exact (hdr_of_mem _ S N o ho ih hm).1
+  obtain ⟨d1, hrun1, hk1, hpres1, hacts1, hfr1⟩ := runRem_run N S hS _ d hG hwf hb0 hdiv hsz hidx
+  -- slots other than the pair do not read in progress after the remediation
+  have hothers : ∀ i, i < N → i ≠ fo.idx → i ≠ po.idx → NotInProg d1.flash S i := by
+    intro i hi h1 h2
+    rcases notInProg_or d.flash S i with h | ⟨h, hh, hext⟩
+    · exact hpres1 i h
+    · have hm : ({ idx := i, hdr := hdrAtFlash d.flash S i } : IH) ∈ o :=
+        (mem_ordered ho _).2 ((mem_hdrsOf _ _ _ _).2 ⟨i, hi, rfl⟩)
+      rcases remediate_covers fo.idx po.idx o _ h hm hh hext (hdrAtFlash_seq_ne _ _ _ _ hh) ⟨h1, h2⟩ with hc | hc
+      · exact hacts1 (i, Rem.abort) hc
+      · exact hacts1 (i, Rem.erase) hc
+  -- the pair keeps its bytes
+  have hkeep : ∀ j, (j = fo.idx ∨ j = po.idx) → hdrAtFlash d1.flash S j = hdrAtFlash d.flash S j := by
+    intro j hj
+    unfold hdrAtFlash
+    have hno : ∀ a ∈ remediateActs fo.idx po.idx o, a.1 ≠ j := by
+      intro a ha
+      have := remediate_spares_pair fo.idx po.idx o a.1 a.2 ha
+      rcases hj with rfl | rfl
+      · exact this.1
+      · exact this.2
+    rw [Crash.read_congr d.flash d1.flash (j * S) 28 (fun x hx => hfr1 j hno _ (by omega) (by omega))]
+  have hcov : ∀ i, i < N → NotInProg d1.flash S i ∨ ∃ h, hdrAtFlash d.flash S i = some h ∧ h.ext = Ext.inProgress := by
+    intro i hi
+    by_cases h1 : i = fo.idx
+    · right; exact ⟨f, by rw [h1, ← hfoh], hfe⟩
+    · by_cases h2 : i = po.idx
+      · right; exact ⟨pp, by rw [h2, ← hpoh], hpe⟩
+      · left; exact hothers i hi h1 h2
+  obtain ⟨d2, hrun2, hk2, hall2⟩ := cancelAll_run N S d d1 o hS hk1.good (hk1.wf hwf) (by rw [hk1.block]; exact hb0)
+    (by rw [hk1.block]; exact hdiv) (by rw [hk1.size]; exact hsz) ho hcov
+  have hrem : (remediate S fo.idx po.idx o).run d = (.ok (), d1) := hrun1
+  have hslot_in : ∀ j, j < N → j * S + S ≤ d1.flash.size := by
+    intro j hj
+    have : (j + 1) * S ≤ N * S := Nat.mul_le_mul_right S (by omega)
+    rw [Nat.add_mul, Nat.one_mul] at this
+    rw [hk1.size]; omega
+  have hload : ∀ j n, (j = fo.idx ∨ j = po.idx) → j < N → 17408 ≤ S → n ≤ 16384 →
+      LegalTable d.flash (j * S + 1024) n → ∃ m, (loadStatus S j n).run d1 = (.ok m, d1) := by
+    intro j n hj hjN hS2 hn hleg
+    have hno : ∀ a ∈ remediateActs fo.idx po.idx o, a.1 ≠ j := by
+      intro a ha
+      have := remediate_spares_pair fo.idx po.idx o a.1 a.2 ha
+      rcases hj with rfl | rfl
+      · exact this.1
+      · exact this.2
+    have e : Orig.WRITTEN_OFFSET = 1024 := rfl
+    apply loadStatus_ok S j n d1 hk1.good (by rw [e]; have := hslot_in j hjN; omega) (by exact hn)
+    rw [e]
+    intro x h1 h2
+    rw [hfr1 j hno x (by omega) (by omega)]
+    exact hleg x h1 h2
+  unfold appAfter
+  simp only [run_bind, hrem, run_tryCatch, run_map]
+  have hs1 := loadStatus_state S fo.idx f.n d1
+  cases hl1 : (loadStatus S fo.idx f.n).run d1 with
+  | mk r1 e1 =>
+    rw [hl1] at hs1; simp only at hs1; subst hs1
+    cases r1 with
+    | error err =>
+      refine ⟨none, d2, ?_, hk2.good, fun _ => hall2, (fun act h => by cases h), ?_⟩
+      · simp only [run_pure, run_bind, hrun2]
+      · intro hS2 hn1 _ hl _
+        obtain ⟨m, hm⟩ := hload fo.idx f.n (Or.inl rfl) hfoN hS2 hn1 hl
+        rw [hl1] at hm; cases hm
+    | ok m1 =>
+      simp only [run_tryCatch, run_map, run_bind]
+      have hs2 := loadStatus_state S po.idx pp.n e1
+      cases hl2 : (loadStatus S po.idx pp.n).run e1 with
+      | mk r2 e2 =>
+        rw [hl2] at hs2; simp only at hs2; subst hs2
+        cases r2 with
+        | error err =>
+          refine ⟨none, d2, ?_, hk2.good, fun _ => hall2, (fun act h => by cases h), ?_⟩
+          · simp only [run_pure, run_bind, hrun2]
+          · intro hS2 _ hn2 _ hl
+            obtain ⟨m, hm⟩ := hload po.idx pp.n (Or.inr rfl) hpoN hS2 hn2 hl
+            rw [hl2] at hm; cases hm
+        | ok m2 =>
+          refine ⟨_, e2, rfl, hk1.good, (fun h => by cases h), ?_, (fun _ _ _ _ _ h => by cases h)⟩
+          intro act hact
+          cases hact
+          refine ⟨rfl, rfl, rfl, rfl, rfl, ?_, ?_, hothers⟩
+          · rw [hkeep _ (Or.inl rfl), ← hfoh]
+          · rw [hkeep _ (Or.inr rfl), ← hpoh]
+
+theorem inProgress_of_status (h : Header) (hs : totalStatus h = .appWriteInProgress) : h.ext = Ext.inProgress := by
+  unfold totalStatus at hs
+  cases hv : (h.seq != 0xFFFFFFFF) <;> cases he : h.ext <;> cases hi : h.ist <;> cases hb : h.boot <;>
+    simp [hv, he, hi, hb] at hs ⊢
+
+theorem ihAt_mem (N p k s0 : Nat) (H : Nat → Header) (i : Nat) (hi : i < N) : ihAt N p k s0 H i ∈ ringIH N p k s0 H := by
+  unfold ringIH
+  exact List.mem_map.2 ⟨i, List.mem_range.2 hi, rfl⟩
+
+/-- **app_status_resumes** (flash level, full).  On every consistent ring device without armed injection
+    `app_boot_status` succeeds and
+
+    * if it reports a session (`some act`): the ring holds at least two slots, the two newest — physical slots `p+k-2`
+      (firmware) and `p+k-1` (parity) — are an in-progress firmware/parity pair of one fragment size whose geometry fits
+      the slot, `act` is exactly that pair (indices, fragment size, counts), the pair's headers are untouched and NO
+      other slot reads "external write in progress" afterwards;
+    * if it reports idle (`none`): NO slot reads "in progress" afterwards;
+    * when there is such a newest in-progress pair and its two status tables hold only written / not-written bytes, it
+      is resumed (the result is not idle). -/
+theorem app_status_resumes (N S p k s0 : Nat) (H : Nat → Header) (d : Dev)
+    (hN : 3 ≤ N) (hN6 : N ≤ 6) (hp : p < N) (hk : k ≤ N) (hS : 28 ≤ S)
+    (hG : Good d) (hwf : FlashAdapters.WF d.flash) (hb0 : 0 < d.flash.block) (hdiv : S % d.flash.block = 0)
+    (hsz : N * S ≤ d.flash.size)
+    (hring : hdrsOf d.flash S (List.range N) = ringIH N p k s0 H) :
+    ∃ r d', (appBootStatus N S).run d = (.ok r, d') ∧ Good d' ∧
+      (r = none → ∀ i, i < N → NotInProg d'.flash S i) ∧
+      (∀ act, r = some act →
+        (2 ≤ k ∧ fits S (hdrAt N p s0 H ((p + k - 2) % N)) = true ∧
+          Resumable (hdrAt N p s0 H ((p + k - 2) % N)) (hdrAt N p s0 H ((p + k - 1) % N))) ∧
+        act.fwIdx = (p + k - 2) % N ∧ act.parIdx = (p + k - 1) % N ∧
+        act.segSize = (hdrAt N p s0 H ((p + k - 2) % N)).size ∧
+        act.totalFw = (hdrAt N p s0 H ((p + k - 2) % N)).n ∧ act.totalPar = (hdrAt N p s0 H ((p + k - 1) % N)).n ∧
+        hdrAtFlash d'.flash S act.fwIdx = some (hdrAt N p s0 H ((p + k - 2) % N)) ∧
+        hdrAtFlash d'.flash S act.parIdx = some (hdrAt N p s0 H ((p + k - 1) % N)) ∧
+        ∀ i, i < N → i ≠ act.fwIdx → i ≠ act.parIdx → NotInProg d'.flash S i) ∧
+      ((2 ≤ k ∧ fits S (hdrAt N p s0 H ((p + k - 2) % N)) = true ∧
+          Resumable (hdrAt N p s0 H ((p + k - 2) % N)) (hdrAt N p s0 H ((p + k - 1) % N))) →
+        17408 ≤ S →
+        LegalTable d.flash ((p + k - 2) % N * S + 1024) (hdrAt N p s0 H ((p + k - 2) % N)).n →
+        LegalTable d.flash ((p + k - 1) % N * S + 1024) (hdrAt N p s0 H ((p + k - 1) % N)).n → r ≠ none) := by
+  obtain ⟨o, ho, hdec⟩ := app_status_resumes_partial S N p k s0 H hN hN6 hp hk
+  rw [← hring] at ho
+  rw [appBootStatus_eq, run_bind, getOrderedHeaders_run N S d hG (by omega) hS hsz o ho]
+  simp only
+  by_cases hc : 2 ≤ k ∧ fits S (hdrAt N p s0 H ((p + k - 2) % N)) = true ∧
+      Resumable (hdrAt N p s0 H ((p + k - 2) % N)) (hdrAt N p s0 H ((p + k - 1) % N))
+  · rw [if_pos hc] at hdec
+    rw [hdec]
+    obtain ⟨hk2, _, hres⟩ := hc
+    have hNpos : 0 < N := by omega
+    have hf : ((p + k - 2) % N + N - p) % N < k := by
+      have hN' : N = 3 ∨ N = 4 ∨ N = 5 ∨ N = 6 := by omega
+      rcases hN' with rfl | rfl | rfl | rfl <;> omega
+    have hq : ((p + k - 1) % N + N - p) % N < k := by
+      have hN' : N = 3 ∨ N = 4 ∨ N = 5 ∨ N = 6 := by omega
+      rcases hN' with rfl | rfl | rfl | rfl <;> omega
+    have e1 : (ihAt N p k s0 H ((p + k - 2) % N)).hdr = some (hdrAt N p s0 H ((p + k - 2) % N)) := by
+      simp only [ihAt, hf, ↓reduceIte, hdrAt]
+    have e2 : (ihAt N p k s0 H ((p + k - 1) % N)).hdr = some (hdrAt N p s0 H ((p + k - 1) % N)) := by
+      simp only [ihAt, hq, ↓reduceIte, hdrAt]
+    have hm1 : ihAt N p k s0 H ((p + k - 2) % N) ∈ o :=
+      (mem_ordered ho _).2 (by rw [hring]; exact ihAt_mem N p k s0 H _ (Nat.mod_lt _ hNpos))
+    have hm2 : ihAt N p k s0 H ((p + k - 1) % N) ∈ o :=
+      (mem_ordered ho _).2 (by rw [hring]; exact ihAt_mem N p k s0 H _ (Nat.mod_lt _ hNpos))
+    obtain ⟨r, d', hrun, hgood, hnone, hsome, hlegal⟩ := appAfter_some_run N S d o hS hG hwf hb0 hdiv hsz ho _ _ _ _ hm1 hm2 e1 e2
+      (inProgress_of_status _ hres.1) (inProgress_of_status _ hres.2.2.1)
+    have hn1 : (hdrAt N p s0 H ((p + k - 2) % N)).n ≤ 16384 := by
+      have := (hdr_of_mem _ S N o ho _ hm1).2
+      rw [e1] at this
+      exact hdrAtFlash_n_le _ _ _ _ this.symm
+    have hn2 : (hdrAt N p s0 H ((p + k - 1) % N)).n ≤ 16384 := by
+      have := (hdr_of_mem _ S N o ho _ hm2).2
+      rw [e2] at this
+      exact hdrAtFlash_n_le _ _ _ _ this.symm
+    refine ⟨r, d', hrun, hgood, hnone, ?_, fun _ hS2 l1 l2 => hlegal hS2 hn1 hn2 l1 l2⟩
+    intro act hact
+    obtain ⟨a1, a2, a3, a4, a5, a6, a7, a8⟩ := hsome act hact
+    have i1 : (ihAt N p k s0 H ((p + k - 2) % N)).idx = (p + k - 2) % N := rfl
+    have i2 : (ihAt N p k s0 H ((p + k - 1) % N)).idx = (p + k - 1) % N := rfl
+    rw [i1] at a1 a6 a8
+    rw [i2] at a2 a7 a8
+    refine ⟨⟨hk2, by assumption, hres⟩, a1, a2, a3, a4, a5, by rw [a1]; exact a6, by rw [a2]; exact a7, ?_⟩
+    intro i hi h1 h2
+    exact a8 i hi (by rw [← a1]; exact h1) (by rw [← a2]; exact h2)
+  · rw [if_neg hc] at hdec
+    rw [hdec]
+    obtain ⟨d', hrun, hk', hall⟩ := cancelAll_run N S d d o hS hG hwf hb0 hdiv hsz ho
+      (fun i _ => notInProg_or d.flash S i)
+    refine ⟨none, d', ?_, hk'.good, fun _ => hall, (fun act h => by cases h), fun h => absurd h hc⟩
+    show (appAfter S o none).run d = _
+    unfold appAfter
+    simp only [run_bind, hrun, run_pure]
+
 /-! ## `start` rejects what a header cannot represent (since the repair) -/
 
 /-- **accept iff**: the repaired `is_reasonably_sized` accepts exactly the geometries a header can represent and
@@ -551,6 +975,21 @@ theorem write_beyond_slot_witness :
   · rfl
 
 /-! ## non-vacuity -/
+
+theorem blank_byte (B n x : Nat) : (Flash.blank B n).byte x = 0xFF := by
+  unfold Flash.blank Flash.byte
+  simp only [Array.getD_eq_getD_getElem?, Array.getElem?_replicate]
+  split <;> rfl
+
+/-- non-vacuity of the ring-device hypotheses: a blank device is the consistent ring state with fill 0 -/
+theorem blank_device_is_ring (B N S p s0 : Nat) (H : Nat → Header) :
+    hdrsOf (Flash.blank B (N * S)) S (List.range N) = ringIH N p 0 s0 H := by
+  unfold hdrsOf ringIH
+  apply List.map_congr_left
+  intro i _
+  rw [hdr_none_of_erased _ S i (fun x _ _ => blank_byte _ _ _)]
+  simp
+
 
 /-- a full 4-slot ring whose numbering crosses the wrap-around: the oldest slot is at position 1 with number
     `2^32-3`; the numbers are `[0, 2^32-3, 2^32-2, ... ]`, `start` takes slots 1 and 2 with numbers 1 and 2 -/
